@@ -247,9 +247,10 @@ fn verif_pure_rule_identity()
 }
 
 /*  reference for the section state machine of the rules format */
-fn ref_parse(lines: &Vec<String>) -> Result<usize, String>
+fn ref_parse(lines: &Vec<String>) -> Result<Vec<(Vec<String>, Vec<String>, Vec<String>)>, String>
 {
-    let mut mode = 0; let mut rules = 0; let mut n = 1;
+    let mut mode = 0; let mut rules : Vec<(Vec<String>, Vec<String>, Vec<String>)> = vec![]; let mut n = 1;
+    let mut cl : Vec<String> = vec![];
     let (mut tl, mut sl) : (Vec<&str>, Vec<&str>) = (vec![], vec![]);
     for line in lines.iter()
     {
@@ -262,7 +263,11 @@ fn ref_parse(lines: &Vec<String>) -> Result<usize, String>
             (3, ":") => {
                 if let Err(e) = PathBundle::parse_lines(tl.clone()) { return Err(format!("Bundle({:?})", e)); }
                 if let Err(e) = PathBundle::parse_lines(sl.clone()) { return Err(format!("Bundle({:?})", e)); }
-                tl.clear(); sl.clear(); rules += 1; mode = 0; },
+                /*  the paths a section means: the independent bundle reference below (repeated entries are merged) */
+                let t = ref_bundle(&tl).unwrap_or(vec!["<reference rejects>".to_string()]); let s = ref_bundle(&sl).unwrap_or(vec!["<reference rejects>".to_string()]);
+                rules.push((t, s, cl.clone()));
+                tl.clear(); sl.clear(); cl.clear(); mode = 0; },
+            (3, l) => cl.push(l.to_string()),
             _ => {},
         }
         n += 1;
@@ -276,7 +281,7 @@ fn verif_pure_parser()
     quiet();
     let mut t = Tally::new("B-P-parse-state-machine");
     let tokens = ["", ":", "a", "b", "\tc", "x y"];
-    for len in 0..=6usize
+    for len in 0..=7usize
     {
         let total = tokens.len().pow(len as u32);
         for code in 0..total
@@ -290,7 +295,7 @@ fn verif_pure_parser()
             let parsed = match guard(|| parse("f.rules".to_string(), text.clone())) { Some(p) => p, None => { t.wrong(&format!("{:?}", text), "parse PANICKED"); continue; } };
             let got = match parsed
             {
-                Ok(rs) => Ok(rs.len()),
+                Ok(rs) => Ok(rs.iter().map(|r| (r.targets.clone(), r.sources.clone(), r.command.clone())).collect::<Vec<_>>()),
                 Err(ParseError::UnexpectedEmptyLine(f, n)) => Err(format!("EmptyLine@{}{}", n, if f == "f.rules" { "" } else { " wrong file" })),
                 Err(ParseError::UnexpectedExtraColon(_, n)) => Err(format!("ExtraColon@{}", n)),
                 Err(ParseError::UnexpectedEndOfFileMidTargets(_, n)) => Err(format!("EofTargets@{}", n)),
